@@ -453,3 +453,105 @@ pub(crate) mod verif_wrap {
         assert!(crate::encrypt::verif_enc::pass_magic() == [0x65, 0x67, 0x6b, 0x20], "[C06] password-mode magic");
     }
 }
+
+// C20: key containers erase on drop. Built against the REAL zeroize crate (E-ZERO is NOT applied to these
+// harnesses). Heap-backed PrivateKey: the deallocator is replaced by an inspector that looks at every block
+// at the moment it is released. Inline PayloadKey: drop_in_place on a ManuallyDrop slot, then read back.
+#[allow(dead_code, static_mut_refs, unused_imports, unused_variables, unused_mut)]
+pub(crate) mod verif_zero {
+    use super::*;
+    use core::alloc::Layout;
+    use core::ptr::NonNull;
+
+    pub static mut FREED_32: usize = 0; // 32-byte blocks released
+    pub static mut DIRTY_32: usize = 0; // ... of which still held a non-zero byte
+    pub fn dealloc_inspect(ptr: NonNull<u8>, layout: Layout) {
+        unsafe {
+            if layout.size() == 32 {
+                FREED_32 += 1;
+                let p = ptr.as_ptr();
+                let mut dirty = false;
+                let mut j = 0;
+                while j < 32 { if *p.add(j) != 0 { dirty = true; } j += 1; }
+                if dirty { DIRTY_32 += 1; }
+            }
+            // the block itself is intentionally not returned to the allocator model (no reuse in these harnesses)
+        }
+    }
+    pub static mut RNG_BYTES: [u8; 32] = [0; 32];
+    pub fn fill_model(dest: &mut [u8]) -> Result<(), getrandom::Error> {
+        unsafe {
+            let b: [u8; 32] = kani::any();
+            RNG_BYTES = b;
+            if dest.len() == 32 { dest.copy_from_slice(&b); }
+        }
+        Ok(())
+    }
+
+    /// PrivateKey built by try_from, cloned, both dropped in either order: every 32-byte block released is all-zero
+    /// at release time, for ALL key bytes.
+    #[kani::proof]
+    #[kani::stub(alloc::alloc::dealloc_nonnull, dealloc_inspect)]
+    #[kani::unwind(34)]
+    pub fn c20_private_key_try_from_clone() {
+        let k: [u8; 32] = kani::any();
+        let a = PrivateKey::try_from(&k[..]).unwrap();
+        let b = a.clone();
+        assert!(b.as_bytes() == &k[..], "[C20] a clone holds the same secret (so it must be erased too)");
+        if kani::any() { drop(a); drop(b); } else { drop(b); drop(a); }
+        unsafe {
+            assert!(FREED_32 == 2, "[C20] the key and its clone each own one 32-byte block");
+            assert!(DIRTY_32 == 0, "[C20] every private-key block is all zero when it is released");
+        }
+        kani::cover!(k[0] == 0 && k[5] != 0);
+        kani::cover!(k[31] == 0xff);
+    }
+
+    /// PrivateKey::generate(): the block holding the CSPRNG output is erased before release.
+    #[kani::proof]
+    #[kani::stub(alloc::alloc::dealloc_nonnull, dealloc_inspect)]
+    #[kani::stub(getrandom::fill, fill_model)]
+    #[kani::unwind(34)]
+    pub fn c20_private_key_generate() {
+        let a = PrivateKey::generate();
+        assert!(a.as_bytes() == unsafe { &RNG_BYTES[..] }, "[C20,C07] a generated key is exactly one 32-byte CSPRNG draw");
+        drop(a);
+        unsafe { assert!(FREED_32 == 1 && DIRTY_32 == 0, "[C20] a generated private key is all zero when its block is released"); }
+        kani::cover!(unsafe { RNG_BYTES[7] } != 0);
+    }
+
+    /// PayloadKey (inline array): after drop its 32 bytes read back as zero; same for a clone.
+    #[kani::proof]
+    #[kani::unwind(34)]
+    pub fn c20_payload_key() {
+        let k: [u8; 32] = kani::any();
+        let mut slot = core::mem::ManuallyDrop::new(PayloadKey::new(&k));
+        let mut slot2 = core::mem::ManuallyDrop::new((*slot).clone());
+        assert!(slot2.as_bytes() == &k[..], "[C20] a clone holds the same secret");
+        let first: bool = kani::any();
+        unsafe {
+            if first { core::mem::ManuallyDrop::drop(&mut slot); core::mem::ManuallyDrop::drop(&mut slot2); }
+            else { core::mem::ManuallyDrop::drop(&mut slot2); core::mem::ManuallyDrop::drop(&mut slot); }
+            let p = &*slot as *const PayloadKey as *const u8;
+            let q = &*slot2 as *const PayloadKey as *const u8;
+            let mut j = 0;
+            while j < 32 {
+                assert!(*p.add(j) == 0, "[C20] a dropped payload key reads back as all zero");
+                assert!(*q.add(j) == 0, "[C20] a dropped payload-key clone reads back as all zero");
+                j += 1;
+            }
+        }
+        kani::cover!(k[0] == 0 && k[1] != 0);
+    }
+
+    /// Zeroizing::new(Vec) as used for file keys / scrypt keys / DH secrets: block erased before release.
+    #[kani::proof]
+    #[kani::stub(alloc::alloc::dealloc_nonnull, dealloc_inspect)]
+    #[kani::unwind(34)]
+    pub fn c20_zeroizing_vec() {
+        let k: [u8; 32] = kani::any();
+        let v = zeroize::Zeroizing::new(k.to_vec());
+        drop(v);
+        unsafe { assert!(FREED_32 == 1 && DIRTY_32 == 0, "[C20] a Zeroizing<Vec<u8>> key buffer is all zero when released"); }
+    }
+}
